@@ -126,7 +126,8 @@ def ref_lists(n, methods):
 COMBO_PRE = [['data/d:link'], ['data/d:copy'], ['data/ld:link']]
 
 # ------------------------------------------------------------------------------------------------------ manifests
-KEYS = ['a', 'a/b', '../x', 'a/../../x', './a', ABS + '/mk']
+# 'conf' is the folder into which deployment itself writes the workflow definition after the manifest was applied
+KEYS = ['a', 'a/b', '../x', 'a/../../x', './a', ABS + '/mk', 'conf']
 METHODS = ['copy', 'link']
 
 
